@@ -542,7 +542,16 @@ def rule_lifetime_witness(ctx):
     witness.rule(ctx, ("C11",), "an Item could outlive the handle that keeps its stream alive (use after free once the stream is dropped)")
 
 
+def rule_lying_iter(ctx):
+    """A slot is written at most once: `extend` writes only indices it reserved, however long the iterator turns out
+    to be (an item written to an unreserved index is overwritten by the next writer without being dropped).  Shared
+    with C08.lying-iter."""
+    from props.c08 import rule_lying_iter as r
+    r(ctx)
+
+
 def rules(ctx):
+    ctx.run_rule("C11.lying-iter", rule_lying_iter)
     ctx.run_rule("C11.drop-visits-all", rule_drop_visits_all)
     ctx.run_rule("C11.dealloc-callers", rule_dealloc_callers)
     ctx.run_rule("C11.drop-gated", rule_drop_gated)
